@@ -575,7 +575,7 @@ fn worker_channel_probe() -> Option<Failure> {
 /// C14 "writers proceed eventually", the L0 halt: a writer is parked while its keyspace has 30 or more L0 runs
 /// (`check_write_halt`) and must go on once compaction has brought the number down.  31 flushes with an L0
 /// threshold of 200 (no compaction kicks in), a writer that is halted, `major_compact`, and the writer has to return.
-fn l0_halt_probe() -> Option<Failure> {
+fn l0_halt_probe(lean: &mut Lean) -> Option<Failure> {
     use std::sync::atomic::{AtomicBool, Ordering};
     let scratch = Scratch::new("l0halt");
     let db = Database::builder(scratch.join("db")).worker_threads_unchecked(0).open().ok()?;
@@ -599,6 +599,18 @@ fn l0_halt_probe() -> Option<Failure> {
     let runs_after = { use fjall::AbstractTree; ks.tree.l0_run_count() };
     let t0 = Instant::now();
     while !done.load(Ordering::Acquire) && t0.elapsed() < Duration::from_secs(30) { std::thread::sleep(Duration::from_millis(10)); }
+    // the same schedule on the model of the halt loop (Conc/L0Halt.lean): enter the loop, one iteration, the compaction, one iteration
+    if !no_model() {
+        let runs_before = 30;
+        let m1 = lean.ask(&format!("l0.run 1 {runs_before} w,w"));
+        let m2 = lean.ask(&format!("l0.run 1 {runs_before} w,w,c{runs_after},w"));
+        let real1 = format!("w={} l0={runs_before}", if halted { "halted" } else { "done" });
+        let real2 = format!("w={} l0={runs_after}", if done.load(Ordering::Acquire) { "done" } else { "halted" });
+        if done.load(Ordering::Acquire) && (m1 != real1 || m2 != real2) {
+            let _ = w.join();
+            return Some(Failure { kind: "model-vs-impl", detail: format!("L0 halt loop: model {m1} / {m2} vs real {real1} / {real2}"), witness: None });
+        }
+    }
     if done.load(Ordering::Acquire) { let _ = w.join(); return if halted { None } else { Some(Failure { kind: "harness", detail: "l0 halt probe: the writer was not halted with 30 L0 runs".into(), witness: None }) }; }
     std::mem::forget(w); std::mem::forget(ks); std::mem::forget(db); std::mem::forget(scratch);
     Some(Failure { kind: "impl-vs-oracle", detail: format!("write halt on 30+ L0 runs: the writer was halted = {halted}; after major_compact the keyspace has {runs_after} L0 run(s), but the writer did not return from insert() within 30 s - it never proceeds"), witness: None })
@@ -662,7 +674,7 @@ fn main() {
     if replay.is_none() { if let Some(f) = stall_probe() { all.push((0, f)); } *hist.entry("stall-probe".to_string()).or_insert(0) += 1; }
     if replay.is_none() { if let Some(f) = worker_channel_probe() { all.push((0, f)); } *hist.entry("worker-channel-probe".to_string()).or_insert(0) += 1; }
     if replay.is_none() && mode_c14 { if let Some(f) = witness_f27() { all.push((0, f)); } *hist.entry("witness-f27".to_string()).or_insert(0) += 1; }
-    if replay.is_none() && mode_c14 { if let Some(f) = l0_halt_probe() { all.push((0, f)); } *hist.entry("l0-halt-probe".to_string()).or_insert(0) += 1; }
+    if replay.is_none() && mode_c14 { if let Some(f) = l0_halt_probe(&mut lean) { all.push((0, f)); } *hist.entry("l0-halt-probe".to_string()).or_insert(0) += 1; }
     for cs in seeds {
         let res = std::panic::catch_unwind(std::panic::AssertUnwindSafe(|| run_case(cs, &mut lean, &mut hist, &mut samples, thorough, nofloor)));
         cases += 1;
